@@ -162,6 +162,7 @@ def run(chk):
          'keys on, the 10th key is placed second and the rows are ordered by the '
          'wrong key sequence' % (norm(lex[0], 60) if lex else ''), fi=fv,
          node=lex[0] if lex else None)
+  clause_builders_do_not_consume(chk, 'C18-R2')
   from rules.c04 import annotations_read_fresh_state
   annotations_read_fresh_state(chk, 'C18-R1')
 
@@ -319,3 +320,64 @@ def _elements_of(v, name):
       elif isinstance(x.value, (ast.List, ast.Tuple)):
         out += list(x.value.elts)
   return out
+
+
+_MUTATORS = {'append', 'extend', 'insert', 'remove', 'pop', 'clear', 'sort', 'reverse',
+             'update', 'setdefault', 'popitem', 'add', 'discard'}
+
+
+def clause_builders_do_not_consume(chk, rid):
+  """The SQL of a predicate is generated several times from one program object
+  (every reader, every requested predicate): the clause builders give the same
+  ORDER BY / LIMIT each time only if they do not use up the annotation data -
+  either they never change what OrderBy() / LimitOf() hand out, or those
+  accessors hand out a fresh value on every call."""
+  repo = chk.repo
+  m = repo.by_name('universe')
+
+  def fresh(fq, depth=2):
+    v = FnView(repo, fq)
+    for n, r in v.returns():
+      if r.value is None or (isinstance(r.value, ast.Constant)):
+        continue
+      e = v.expand(r.value, 3)
+      if isinstance(e, ast.Call):
+        t = call_tail(e)
+        if t in ('FieldValuesAsList', 'list', 'sorted', 'deepcopy', 'copy', 'dict', 'tuple'):
+          continue
+        tg = [x for x in repo.resolve(v.fi, e) if x.startswith('universe.')]
+        if tg and depth and all(fresh(x, depth - 1) for x in tg):
+          continue
+        return False
+      if isinstance(e, (ast.List, ast.ListComp, ast.Tuple, ast.BinOp, ast.JoinedStr)):
+        continue
+      return False              # a stored object (attribute, subscript, name)
+    return True
+
+  for builder, accessor in (('universe.Annotations.OrderByClause', 'universe.Annotations.OrderBy'),
+                            ('universe.Annotations.LimitClause', 'universe.Annotations.LimitOf')):
+    v = FnView(repo, builder)
+    got = set()
+    for x in walk_local(v.fi.node):
+      if isinstance(x, ast.Assign) and len(x.targets) == 1 and isinstance(x.targets[0], ast.Name) \
+          and isinstance(x.value, ast.Call) and accessor in repo.resolve(v.fi, x.value):
+        got.add(x.targets[0].id)
+    changed = None
+    for x in walk_local(v.fi.node):
+      if isinstance(x, ast.Call) and isinstance(x.func, ast.Attribute) and x.func.attr in _MUTATORS \
+          and isinstance(x.func.value, ast.Name) and x.func.value.id in got:
+        changed = x
+      elif isinstance(x, (ast.Assign, ast.AugAssign, ast.Delete)):
+        tg = x.targets if not isinstance(x, ast.AugAssign) else [x.target]
+        for t in tg:
+          if isinstance(t, ast.Subscript) and isinstance(t.value, ast.Name) and t.value.id in got:
+            changed = x
+          elif isinstance(x, ast.AugAssign) and isinstance(t, ast.Name) and t.id in got:
+            changed = x
+    chk.ob(rid, changed is None or fresh(accessor), None,
+           '%s leaves the annotation data as it found it' % builder.split('.')[-1],
+           '`%s` changes the value %s() hands out, and that value is a stored object: the '
+           'second time the SQL of the predicate is generated (another reader, another '
+           'requested predicate) the clause is built from what is left'
+           % (norm(changed, 50) if changed is not None else '', accessor.split('.')[-1]),
+           fi=v.fi, node=changed)
